@@ -711,6 +711,8 @@ theorem whitelist_inv {s s' : State} {app asset : Nat} (hL : LInv s) (hC : CInvD
   split at h; · simp at h
   split at h; · simp at h
   split at h; · simp at h
+  split at h; · simp at h
+  split at h; · simp at h
   rename_i hnone
   simp at h; subst h
   refine ⟨⟨hL.idsLe, hL.netNonneg, ?_, ?_, idsInvS_putLookupNil hL.ids,
@@ -735,6 +737,8 @@ theorem create_inv {s s' : State} {u app asset : Nat} {amt : Int} (hL : LInv s) 
   simp only [step] at h
   split at h; · simp at h
   rename_i hamt
+  split at h; · simp at h
+  split at h; · simp at h
   split at h; · simp at h
   split at h; · simp at h
   split at h; · simp at h
@@ -787,6 +791,8 @@ theorem deposit_inv {s s' : State} {u app asset id : Nat} {amt : Int} {rw : Rw} 
   simp only [step] at h
   split at h; · simp at h
   rename_i hvb
+  split at h; · simp at h
+  split at h; · simp at h
   split at h; · simp at h
   rename_i l hg
   obtain ⟨hl, hasset, _, happ, hlk⟩ := lockerGuards_spec hg
@@ -1241,6 +1247,175 @@ theorem lsrChange_inv {s s' : State} {app asset : Nat} {rws : List Rw} (hL : LIn
     exact ⟨l, hl, hk.1, hk.2⟩
 
 
+/-! ## configuration changes and auction start decisions -/
+
+theorem LInv.frame' {s s' : State} (h : LInv s) (h1 : s'.lockers = s.lockers) (h2 : s'.lookup = s.lookup)
+    (h3 : s'.lastId = s.lastId) (h4 : s'.bank = s.bank) : LInv s' := by
+  refine ⟨?_, ?_, ?_, ?_, ?_, ?_⟩
+  · rw [h1, h3]; exact h.idsLe
+  · rw [h1]; exact h.netNonneg
+  · intro k; have := h.depEq k; unfold dep at this ⊢; rw [h1, h2]; exact this
+  · intro a; have := h.custody a; unfold bal at this ⊢; rw [h2, h4]; exact this
+  · rw [h1, h2]; exact h.ids
+  · rw [h2]; exact h.depNonneg
+
+theorem CInvD.frame' {s s' : State} (h : CInvD D s) (h1 : s'.fees = s.fees) (h2 : s'.bank = s.bank) : CInvD D s' := by
+  refine ⟨?_, ?_⟩
+  · rw [h1]; exact h.nonneg
+  · intro a; have := h.custody a; unfold bal at this ⊢; rw [h1, h2]; exact this
+
+theorem config_inv {s : State} (c : Cfg) (hL : LInv s) (hC : CInvD D s) :
+    LInv (applyCfg s c) ∧ CInvD D (applyCfg s c) ∧ Delta s (applyCfg s c) := by
+  cases c <;> exact ⟨hL.frame' rfl rfl rfl rfl, hC.frame' rfl rfl, Delta.of_eq rfl (fun _ => rfl)⟩
+
+theorem setActive_inv {s : State} (k : Nat × Nat) (m : AMap) (hL : LInv s) (hC : CInvD D s) :
+    LInv (setActive s k m) ∧ CInvD D (setActive s k m) ∧ Delta s (setActive s k m) :=
+  ⟨hL.frame' rfl rfl rfl rfl, hC.frame' rfl rfl, Delta.of_eq rfl (fun _ => rfl)⟩
+
+theorem activateOne_inv {s : State} (gen2 : Bool) (k : Nat × Nat) (hL : LInv s) (hC : CInvD D s) :
+    LInv (activateOne s gen2 k).1 ∧ CInvD D (activateOne s gen2 k).1 ∧ Delta s (activateOne s gen2 k).1 := by
+  have same : LInv s ∧ CInvD D s ∧ Delta s s := ⟨hL, hC, Delta.refl _⟩
+  have viaGet : ∀ {x : Int} {s1 : State} (m : AMap), getAmount s k x = some s1 →
+      (LInv s1 ∧ CInvD D s1 ∧ Delta s s1) ∧ (LInv (setActive s1 k m) ∧ CInvD D (setActive s1 k m) ∧ Delta s (setActive s1 k m)) := by
+    intro x s1 m hg
+    obtain ⟨a, b, c⟩ := getAmount_core_inv hL hC hg
+    obtain ⟨a', b', c'⟩ := setActive_inv k m a b
+    exact ⟨⟨a, b, c⟩, ⟨a', b', c.trans c'⟩⟩
+  unfold activateOne
+  split
+  · exact same
+  · rename_i m hm
+    split
+    · exact same
+    · split
+      · rename_i c v hc hv
+        split
+        · split
+          · split
+            · exact setActive_inv k m hL hC
+            · exact same
+          · split
+            · split
+              · exact same
+              · rename_i s1 hg
+                split
+                · exact (viaGet m hg).2
+                · exact (viaGet m hg).1
+            · exact same
+        · split
+          · split
+            · split
+              · exact same
+              · rename_i s1 hg
+                exact (viaGet m hg).2
+            · exact same
+          · split
+            · split
+              · exact setActive_inv k m hL hC
+              · exact same
+            · exact same
+      · exact same
+
+theorem activate_inv (gen2 : Bool) (keys : List (Nat × Nat)) : ∀ {s : State}, LInv s → CInvD D s →
+    LInv (activate s gen2 keys) ∧ CInvD D (activate s gen2 keys) ∧ Delta s (activate s gen2 keys) := by
+  induction keys with
+  | nil => intro s hL hC; exact ⟨hL, hC, Delta.refl _⟩
+  | cons k ks ih =>
+    intro s hL hC
+    obtain ⟨a, b, c⟩ := activateOne_inv (D := D) gen2 k hL hC
+    simp only [activate]
+    split
+    · exact ⟨a, b, c⟩
+    · obtain ⟨a', b', c'⟩ := ih a b
+      exact ⟨a', b', c.trans c'⟩
+
+/-- What a start decision can do to one entry: nothing; or (debt) raise the active flag when `netFees ≤ debtThreshold − lot`;
+or (surplus) take exactly the lot through `GetAmountFromCollector` when `netFees ≥ surplusThreshold + lot`, raising the flag
+unless (second generation, English auctions not activated) the sweep aborts after the lot has left. -/
+theorem activateOne_spec (s : State) (gen2 : Bool) (k : Nat × Nat) :
+    (activateOne s gen2 k).1 = s ∨
+    (∃ m c, Store.get s.amap k = some m ∧ Store.get s.collk k = some c ∧ m.active = false ∧ k.1 ∉ s.killOn ∧
+        (gen2 = false → k.1 ∉ s.esmOn) ∧
+      ((m.debt = true ∧ fee s k ≤ c.debtThr - c.lot ∧ (activateOne s gen2 k).1 = setActive s k m) ∨
+       (m.surplus = true ∧ c.surplusThr + c.lot ≤ fee s k ∧ ∃ s1, getAmount s k c.lot = some s1 ∧
+          ((activateOne s gen2 k).1 = setActive s1 k m ∨
+           (gen2 = true ∧ k.1 ∉ s.englishOn ∧ (activateOne s gen2 k) = (s1, true)))))) := by
+  unfold activateOne
+  split
+  · exact Or.inl rfl
+  · rename_i m hm
+    split
+    · exact Or.inl rfl
+    · rename_i hoff
+      simp only [Bool.or_eq_true, Bool.and_eq_true, decide_eq_true_eq, Bool.not_eq_true', not_or, not_and] at hoff
+      obtain ⟨⟨hact, hkill⟩, hesm⟩ := hoff
+      have hact' : m.active = false := by simpa using hact
+      split
+      · rename_i c v hc hv
+        have hfee : fee s k = v := by simp [fee, hv]
+        split
+        · rename_i hg2
+          split
+          · rename_i hd
+            split
+            · exact Or.inr ⟨m, c, hm, hc, hact', hkill, fun e => by simp [hg2] at e, Or.inl ⟨hd.2, by rw [hfee]; exact hd.1, rfl⟩⟩
+            · exact Or.inl rfl
+          · split
+            · rename_i hsur
+              split
+              · exact Or.inl rfl
+              · rename_i s1 hg
+                split
+                · exact Or.inr ⟨m, c, hm, hc, hact', hkill, fun e => by simp [hg2] at e,
+                    Or.inr ⟨hsur.2, by rw [hfee]; exact hsur.1, s1, hg, Or.inl rfl⟩⟩
+                · rename_i heng
+                  exact Or.inr ⟨m, c, hm, hc, hact', hkill, fun e => by simp [hg2] at e,
+                    Or.inr ⟨hsur.2, by rw [hfee]; exact hsur.1, s1, hg, Or.inr ⟨hg2, heng, rfl⟩⟩⟩
+            · exact Or.inl rfl
+        · rename_i hg2
+          have hg2' : gen2 = false := by simpa using hg2
+          have hesm' : k.1 ∉ s.esmOn := by
+            intro hin; have := hesm (by simp [hg2']); exact this hin
+          split
+          · rename_i hsur
+            split
+            · rename_i hthr
+              split
+              · exact Or.inl rfl
+              · rename_i s1 hg
+                exact Or.inr ⟨m, c, hm, hc, hact', hkill, fun _ => hesm',
+                  Or.inr ⟨hsur, by rw [hfee]; exact hthr, s1, hg, Or.inl rfl⟩⟩
+            · exact Or.inl rfl
+          · split
+            · rename_i hdebt
+              split
+              · rename_i hthr
+                exact Or.inr ⟨m, c, hm, hc, hact', hkill, fun _ => hesm', Or.inl ⟨hdebt, by rw [hfee]; exact hthr, rfl⟩⟩
+              · exact Or.inl rfl
+            · exact Or.inl rfl
+      · exact Or.inl rfl
+
+/-- `GetAmountFromCollector` takes exactly `x`: record and custody both drop by `x`, the coins arrive in the auction account. -/
+theorem getAmount_exact {s s1 : State} {k : Nat × Nat} {x : Int} (h : getAmount s k x = some s1) :
+    0 ≤ x ∧ x < fee s k ∧ fee s1 k = fee s k - x ∧ bal s1 .collector k.2 = bal s .collector k.2 - x ∧
+    bal s1 .auction k.2 = bal s .auction k.2 + x ∧ s1.lockers = s.lockers ∧ s1.lookup = s.lookup := by
+  unfold getAmount at h
+  split at h; · simp at h
+  rename_i v hv
+  split at h; · simp at h
+  split at h; · simp at h
+  split at h; · simp at h
+  rename_i b hsend
+  rename_i hx hgt
+  obtain ⟨_, _, hb⟩ := Bank.send_spec hsend
+  obtain ⟨_, _, hs'⟩ := decNetFee_spec h
+  have hfee : fee s k = v := by simp [fee, hv]
+  subst hs'
+  refine ⟨by omega, by omega, ?_, ?_, ?_, rfl, rfl⟩
+  · simp only [fee, Store.get_put_self]; simp [fee, hv]
+  · unfold bal; show b.bal _ _ = _; rw [hb]; simp
+  · unfold bal; show b.bal _ _ = _; rw [hb]; simp
+
 /-! ## all operations -/
 
 /-- side conditions on the external inputs (checked by the driver on every trace line). -/
@@ -1289,6 +1464,12 @@ theorem step_inv {s s' : State} {op : Op} (hL : LInv s) (hC : CInvD D s) (hext :
   | surplusFund a b u x => have := surplusFund_inv hL hC h; exact ⟨this.1, this.2.1, fun _ _ => this.2.2⟩
   | v2SurplusClose a b u x => simp [Op.isV2Close] at hv2
   | v2DebtClose a b c d => simp [Op.isV2Close] at hv2
+  | config c =>
+    simp only [step] at h; simp at h; subst h
+    have := config_inv (D := D) c hL hC; exact ⟨this.1, this.2.1, fun _ _ => this.2.2⟩
+  | activate g ks =>
+    simp only [step] at h; simp at h; subst h
+    have := activate_inv (D := D) g ks hL hC; exact ⟨this.1, this.2.1, fun _ _ => this.2.2⟩
 
 /-- a withdrawal pays the owner exactly the requested amount and the locker keeps `net + reward − amount`. -/
 theorem withdraw_pays {s s' : State} {u app asset id : Nat} {amt : Int} {rw : Rw} (hL : LInv s) (hC : CInvD D s) (hok : rw.ok)
@@ -1404,6 +1585,13 @@ theorem cmove_dmg {s s' : State} (hL : LInv s) (hC : CInvD D s) {k : Nat × Nat}
     · have ha' : ¬ a = k.2 := fun e => ha e.symm
       simp [ha, ha']; omega
 
+theorem clearActive_spec {s s' : State} {k : Nat × Nat} (h : clearActive s k = some s') :
+    s'.lockers = s.lockers ∧ s'.lookup = s.lookup ∧ s'.lastId = s.lastId ∧ s'.bank = s.bank ∧ s'.fees = s.fees := by
+  unfold clearActive at h
+  split at h
+  · simp at h
+  · simp at h; subst h; exact ⟨rfl, rfl, rfl, rfl, rfl⟩
+
 theorem v2SurplusClose_inv {s s' : State} {app asset u : Nat} {lot : Int} (hL : LInv s) (hC : CInvD D s)
     (h : step s (.v2SurplusClose app asset u lot) = some s') :
     LInv s' ∧ CInvD (fun a => D a + (Op.v2SurplusClose app asset u lot).dmg a) s' := by
@@ -1412,18 +1600,23 @@ theorem v2SurplusClose_inv {s s' : State} {app asset u : Nat} {lot : Int} (hL : 
   rename_i b1 hs1
   split at h; · simp at h
   rename_i b2 hs2
-  obtain ⟨hx, _, hb1⟩ := Bank.send_spec hs1
-  obtain ⟨_, _, hb2⟩ := Bank.send_spec hs2
-  obtain ⟨_, hs'⟩ := setNetFee_spec h
-  have hf0 := fee_nonneg hC (app, asset)
-  have := cmove_dmg hL hC (s' := s') (k := (app, asset)) (δ := lot) (β := -lot) (γ := 2 * lot)
-    (by rw [hs']; rfl) (by omega)
-    (by intro d; rw [hs']; simp only; rw [hb2, hb1]; by_cases hd : asset = d <;> simp [hd]; omega)
-    (by intro d; rw [hs']; simp only; rw [hb2, hb1]; simp)
-    (by omega) (by omega) (by rw [hs']) (by rw [hs']) (by rw [hs'])
-  refine ⟨this.1, this.2.mono ?_⟩
-  intro a; simp only [Op.dmg]
-  by_cases ha : a = asset <;> simp [ha, hx]
+  cases hset : setNetFee { s with bank := b2 } (app, asset) lot with
+  | none => simp [hset] at h
+  | some s2 =>
+    simp only [hset, Option.bind_some] at h
+    obtain ⟨f1, f2, f3, f4, f5⟩ := clearActive_spec h
+    obtain ⟨hx, _, hb1⟩ := Bank.send_spec hs1
+    obtain ⟨_, _, hb2⟩ := Bank.send_spec hs2
+    obtain ⟨_, hs'⟩ := setNetFee_spec hset
+    have hf0 := fee_nonneg hC (app, asset)
+    have := cmove_dmg hL hC (s' := s2) (k := (app, asset)) (δ := lot) (β := -lot) (γ := 2 * lot)
+      (by rw [hs']; rfl) (by omega)
+      (by intro d; rw [hs']; simp only; rw [hb2, hb1]; by_cases hd : asset = d <;> simp [hd]; omega)
+      (by intro d; rw [hs']; simp only; rw [hb2, hb1]; simp)
+      (by omega) (by omega) (by rw [hs']) (by rw [hs']) (by rw [hs'])
+    refine ⟨this.1.frame' f1 f2 f3 f4, (this.2.frame' f5 f4).mono ?_⟩
+    intro a; simp only [Op.dmg]
+    by_cases ha : a = asset <;> simp [ha, hx]
 
 theorem v2DebtClose_inv {s s' : State} {app asset : Nat} {c d : Int} (hL : LInv s) (hC : CInvD D s)
     (h : step s (.v2DebtClose app asset c d) = some s') :
@@ -1433,17 +1626,22 @@ theorem v2DebtClose_inv {s s' : State} {app asset : Nat} {c d : Int} (hL : LInv 
   cases hc : creditCollector s asset d with
   | none => simp [hc] at h
   | some s1 =>
-    simp [hc] at h
-    obtain ⟨hx, hb, hf, hlo, hlk, hid, _⟩ := creditCollector_spec hc
-    obtain ⟨hc0, hs'⟩ := setNetFee_spec h
-    have := cmove_dmg hL hC (s' := s') (k := (app, asset)) (δ := c) (β := d) (γ := if 0 ≤ c - d then c - d else 0)
-      (by rw [hs']; simp [hf, fee_congr hf]) (by omega)
-      (by intro d'; rw [hs']; simp only; rw [hb]; by_cases hd : asset = d' <;> simp [hd])
-      (by intro d'; rw [hs']; simp only; rw [hb]; simp)
-      (by split <;> omega) (by split <;> omega) (by rw [hs']; exact hlo) (by rw [hs']; exact hlk) (by rw [hs']; exact hid)
-    refine ⟨this.1, this.2.mono ?_⟩
-    intro a; simp only [Op.dmg]
-    by_cases ha : a = asset <;> simp [ha]
+    simp only [hc, Option.bind_some] at h
+    cases hset : setNetFee s1 (app, asset) c with
+    | none => simp [hset] at h
+    | some s2 =>
+      simp only [hset, Option.bind_some] at h
+      obtain ⟨f1, f2, f3, f4, f5⟩ := clearActive_spec h
+      obtain ⟨hx, hb, hf, hlo, hlk, hid, _⟩ := creditCollector_spec hc
+      obtain ⟨hc0, hs'⟩ := setNetFee_spec hset
+      have := cmove_dmg hL hC (s' := s2) (k := (app, asset)) (δ := c) (β := d) (γ := if 0 ≤ c - d then c - d else 0)
+        (by rw [hs']; simp [hf, fee_congr hf]) (by omega)
+        (by intro d'; rw [hs']; simp only; rw [hb]; by_cases hd : asset = d' <;> simp [hd])
+        (by intro d'; rw [hs']; simp only; rw [hb]; simp)
+        (by split <;> omega) (by split <;> omega) (by rw [hs']; exact hlo) (by rw [hs']; exact hlk) (by rw [hs']; exact hid)
+      refine ⟨this.1.frame' f1 f2 f3 f4, (this.2.frame' f5 f4).mono ?_⟩
+      intro a; simp only [Op.dmg]
+      by_cases ha : a = asset <;> simp [ha]
 
 /-- every operation: the locker books stay exact; the collector books lose at most `op.dmg`. -/
 theorem step_invD {s s' : State} {op : Op} (hL : LInv s) (hC : CInvD D s) (hext : op.extOk)
@@ -1466,16 +1664,29 @@ theorem repairedSurplusClose_inv {s s' : State} {app asset u : Nat} {lot : Int} 
   rename_i b2 hs2
   obtain ⟨_, _, hb1⟩ := Bank.send_spec hs1
   obtain ⟨_, _, hb2⟩ := Bank.send_spec hs2
-  simp at h; subst h
+  obtain ⟨f1, f2, f3, f4, f5⟩ := clearActive_spec h
   have hl : ∀ d, b2.bal .locker d = s.bank.bal .locker d := by intro d; rw [hb2, hb1]; simp
   have hc : ∀ d, b2.bal .collector d = s.bank.bal .collector d := by intro d; rw [hb2, hb1]; simp
-  refine ⟨⟨hL.idsLe, hL.netNonneg, hL.depEq, ?_, hL.ids, hL.depNonneg⟩, ⟨hC.nonneg, ?_⟩, Delta.of_eq rfl hc⟩
-  · intro a; have := hL.custody a; unfold bal at this ⊢; show _ ≤ b2.bal _ _; rw [hl]; exact this
-  · intro a; have := hC.custody a; unfold bal at this ⊢; show _ ≤ b2.bal _ _ + _; rw [hc]; exact this
+  have hL2 : LInv ({ s with bank := b2 } : State) := by
+    refine ⟨hL.idsLe, hL.netNonneg, hL.depEq, ?_, hL.ids, hL.depNonneg⟩
+    intro a; have := hL.custody a; unfold bal at this ⊢; show _ ≤ b2.bal _ _; rw [hl]; exact this
+  have hC2 : CInvD D ({ s with bank := b2 } : State) := by
+    refine ⟨hC.nonneg, ?_⟩
+    intro a; have := hC.custody a; unfold bal at this ⊢; show _ ≤ b2.bal _ _ + _; rw [hc]; exact this
+  refine ⟨hL2.frame' f1 f2 f3 f4, hC2.frame' f5 f4, ?_⟩
+  intro a; unfold bal; rw [f5, f4]; show _ - b2.bal _ _ = _; rw [hc]
 
 theorem repairedDebtClose_inv {s s' : State} {app asset : Nat} {c d : Int} (hL : LInv s) (hC : CInvD D s)
-    (h : stepRepaired s (.v2DebtClose app asset c d) = some s') : LInv s' ∧ CInvD D s' ∧ Delta s s' :=
-  auctionReturn_inv (app := app) (asset := asset) (x := d) hL hC h
+    (h : stepRepaired s (.v2DebtClose app asset c d) = some s') : LInv s' ∧ CInvD D s' ∧ Delta s s' := by
+  simp only [stepRepaired] at h
+  cases h1 : ((creditCollector s asset d).bind fun s1 => setNetFee s1 (app, asset) d) with
+  | none => simp [h1] at h
+  | some s2 =>
+    simp only [h1, Option.bind_some] at h
+    obtain ⟨f1, f2, f3, f4, f5⟩ := clearActive_spec h
+    obtain ⟨a, b, c'⟩ := auctionReturn_inv (app := app) (asset := asset) (x := d) hL hC h1
+    refine ⟨a.frame' f1 f2 f3 f4, b.frame' f5 f4, ?_⟩
+    intro x; have := c' x; unfold bal at this ⊢; rw [f5, f4]; exact this
 
 /-! ## the reward computed inside the model -/
 
@@ -1723,6 +1934,8 @@ theorem msg_reward_some {s s' : State} {op : Op} (h : step s op = some s') :
   refine ⟨?_, ?_, ?_, ?_⟩
   · intro u app asset id amt rw e; subst e
     simp only [step] at h
+    split at h; · simp at h
+    split at h; · simp at h
     split at h; · simp at h
     split at h; · simp at h
     rename_i l hg
